@@ -4,6 +4,11 @@ NOTES = ("All checks run /venv/bin/python on bitstring imported from /repo's wor
          "known_findings.json lists genuine defects (open: reported as KNOWN-FINDING; fixed: suppress nothing).")
 NOT_APPLICABLE = {}
 CHECKS = {
+ 'C11': dict(
+    text="Fully exhaustive tables plus boundary enumeration: every code of every format is decoded through six reading routes (and under lsb0) and compared bit-exactly (sign of zero, NaN, infinities) with an exact model; every one of the 65536 binary16 values is encoded into every format under both mxfp_overflow settings, and for every pair of adjacent binary16 values the midpoint and its two binary64 neighbours (both signs), the binary16 overflow threshold, format-specific overflow thresholds and specials are encoded too; all eight creation routes on a fixed stride; mxint at every k/128 +-1ulp, e8m0 at every power of two and its neighbours, bfloat on all 65536 codes in every byte order and on a binary32 pattern family plus every bfloat midpoint; scaled dtypes; decode->re-encode identity.",
+    design_ref="DESIGN.md section 4 C11",
+    note="Trusts the exact model bsmc/models/minifloat.py (self-tested against struct '>e' and the values printed in doc/exotic_floats.rst) and the documented fact that inputs are first rounded to binary16, which makes encode constant on each binary16 rounding interval - every interval end point is enumerated. Any NaN code is accepted for NaN inputs (not documented which).",
+    technique="exhaustive enumeration of codec tables and rounding-interval end points against an exact rational reference model"),
  'C09': dict(
     text="Exhaustive enumeration of call histories of the shape [SET options o1; CALL A; X; SET options o2; CALL B] on the real module state: every ordered pair (A, B) of a 53-call alphabet (construct from token strings incl. option-dependent codecs and bits= tokens, fromstring, pack incl. list formats and keyword lengths/values, unpack/readlist/read, Dtype creation with int/float scales observed through the value and type of parse/build, scaled Array arithmetic), every option pair in the menu, X in {nothing, six mutations of A's result, flooding each LRU cache family with maxsize+1 fresh keys (maxsize read from cache_info)}; B's observation must equal the cold table entry (same call, every cache cleared, same options). Thorough adds three-call histories.",
     design_ref="DESIGN.md section 4 C09",
